@@ -187,6 +187,7 @@ func LoadMod(repoDir string, overlay map[string][]byte, allSyntax bool, mod stri
 		c.SrcFns = append(c.SrcFns, fn)
 	}
 	sort.Slice(c.SrcFns, func(i, j int) bool { return fnName(c.SrcFns[i]) < fnName(c.SrcFns[j]) })
+	registerCallSites(c.SrcFns)
 	return c, nil
 }
 
@@ -233,9 +234,16 @@ func (c *Ctx) MustFn(rule, pkg, name string) *ssa.Function {
 	if fn == nil {
 		c.add(&Obligation{Rule: rule, Func: "@/" + pkg + "." + name, Construct: "anchor", Status: Undecided,
 			Detail: "unresolved anchor: function not found in the type-checked program (renamed or removed?)"})
+	} else {
+		curAnchors[fn] = true
 	}
 	return fn
 }
+
+// curAnchors: the functions the rule being evaluated named as anchors (MustFn). For these, calls() also looks into the
+// same-package helpers they call when they have no matching call themselves, so that an anchor call moved into an extracted
+// helper is still found; functions merely enumerated by a rule are searched locally only.
+var curAnchors = map[*ssa.Function]bool{}
 
 func (c *Ctx) pos(p token.Pos) string {
 	if !p.IsValid() {
@@ -286,6 +294,7 @@ func (c *Ctx) Rule(id, doc string, min int) {
 	}
 	c.ruleDocs[id] = doc
 	c.ruleMin[id] = min
+	curAnchors = map[*ssa.Function]bool{}
 }
 
 // ob records an obligation. ok=true => discharged, else violated.
